@@ -359,19 +359,32 @@ func ruleC06R3(r *Run, le *LockEngine) {
 	// the router: the function that deletes from replyCh
 	var router *ssa.Function
 	var del *ssa.Call
+	routerLooksUp := false
 	for _, fn := range p.Funcs {
 		if fnPkgPath(fn) != modPath+"/wire" {
 			continue
 		}
+		var d0 *ssa.Call
+		looksUp := false
 		allInstrs(fn, func(ins ssa.Instruction) {
 			if c, ok := ins.(*ssa.Call); ok {
 				if b, isB := c.Call.Value.(*ssa.Builtin); isB && b.Name() == "delete" {
 					if u, isU := c.Call.Args[0].(*ssa.UnOp); isU && fieldKeyOfAddr(u.X) == "/wire.ClientConn.replyCh" {
-						router, del = fn, c
+						d0 = c
 					}
 				}
 			}
+			if l, ok := ins.(*ssa.Lookup); ok {
+				if u, isU := l.X.(*ssa.UnOp); isU && fieldKeyOfAddr(u.X) == "/wire.ClientConn.replyCh" {
+					looksUp = true
+				}
+			}
 		})
+		// a function that only deletes (a requester taking back its own registration when it gives up) is no router;
+		// it stands in only when nobody looks up and deletes
+		if d0 != nil && (looksUp || router == nil) && !(routerLooksUp && !looksUp) {
+			router, del, routerLooksUp = fn, d0, looksUp
+		}
 	}
 	if router == nil {
 		r.Check("router deletes entries", false, "", "", "no function deletes from ClientConn.replyCh: answered ids are never released and a duplicate response is delivered again")
@@ -618,7 +631,25 @@ func ruleC06R5(r *Run) {
 					continue
 				}
 				if cx := doneCtx(st.Chan); cx != nil {
-					origins, _ := p.originsThroughParams(cx, 0)
+					// (in the helper the context is what sendRequest hands in; sendRequest's own parameter is the caller's)
+					origins := []ssa.Value{cx}
+					if g != send {
+						origins = nil
+						for _, o := range ctxRoots(cx) {
+							if prm, isP := canonVal(o).(*ssa.Parameter); isP && prm.Parent() == g && g.Parent() == nil {
+								for _, site := range p.staticCallSites(g) {
+									args := callArgs(instrCall(site))
+									for i, q := range g.Params {
+										if q == prm && i < len(args) {
+											origins = append(origins, args[i])
+										}
+									}
+								}
+							} else {
+								origins = append(origins, o)
+							}
+						}
+					}
 					for _, o := range origins {
 						for _, x := range p.Leaves(o, provOpts{}) {
 							if strings.HasPrefix(x, "param:") && strings.HasSuffix(x, "#ctx") {
